@@ -283,6 +283,11 @@ class Builtins:
             return float(x)
         if isinstance(x, Opaque):
             return x
+        if isinstance(x, str):
+            try:
+                return float(x)
+            except ValueError as e:
+                raise Raised(self.mkexc("ValueError", str(e)))
         raise Unknown("float()")
 
     def b_str(self, I, x=""):
